@@ -26,3 +26,13 @@ KANI = {'c17_apchange': {'crate': 'cairo-lang-casm',
                                 ('crates/cairo-lang-casm/src/ap_change.rs', 'trait ApplyApChange: Sized', 'apply_ap_change'),
                                 ('crates/cairo-lang-casm/src/ap_change.rs', 'trait ApplyApChange: Sized', 'unchecked_apply_known_ap_change')],
                   'trusted': ['callers of CellRef::apply_known_ap_change are verified against its contract (stub_verified), not its body']}}
+
+KANI['c17_ref_expr'] = {
+    'crate': 'cairo-lang-sierra-to-casm',
+    'host': 'crates/cairo-lang-sierra-to-casm/src/references.rs',
+    'harness': 'kani/cairo-lang-sierra-to-casm/c17_ref_expr.rs',
+    'props': {'C17'},
+    'functions': [('crates/cairo-lang-sierra-to-casm/src/references.rs', 'impl ApplyApChange for ReferenceExpression', 'apply_known_ap_change'),
+                  ('crates/cairo-lang-sierra-to-casm/src/references.rs', 'impl ApplyApChange for ReferenceExpression', 'can_apply_unknown')],
+    'trusted': [],
+}
